@@ -430,11 +430,11 @@ def session_oracle(t, inputs_obs, probes, bumps=None):
     Each module's top level runs TO COMPLETION at most once per session -- also when inputs in
     between fail (missing module, module that does not compile or raises, cycle, ...); a module whose
     top level raised is not initialised and may run again; names imported by earlier ACCEPTED inputs
-    stay usable.  In plain trees (no symlinks, no manifest) every module has a private counter advanced by its own pub
+    stay usable.  Every module has a counter advanced by its own pub
     function; each accepted input calls it through the qualifier it imported: the values count up through the session."""
     out = []
     counters = collections.Counter()
-    stateful = not t["links"] and not t["hints"]
+    stateful = True
 
     def fail(sig, what):
         out.append((sig, what))
@@ -444,12 +444,17 @@ def session_oracle(t, inputs_obs, probes, bumps=None):
     for k, inp in enumerate(t["inputs"]):
         tt["files"]["in%d" % k] = {"imports": inp["imports"], "defs": [], "fault": 0}
     raises = {f for f, m in t["files"].items() if m.get("fault") == 2}
-    done, shared, accepted = [], set(), []
+    done, shared, accepted, reached, shared_at, reached_at = [], set(), [], set(), [], []
     for k, (code, tags) in enumerate(inputs_obs):
         me = "in%d" % k
         tt["entry"] = me
         a = analyse(tt)
-        shared |= a["shared_names"]
+        # the VM keeps every module's globals for the whole session: a name defined by two files that ANY inputs reached
+        reached |= {f for f in a["reach"] if f in t["files"]}
+        cnt = collections.Counter(n for f in reached for n in {n for n, _ in t["files"][f]["defs"]})
+        shared |= {n for n, c_ in cnt.items() if c_ > 1}
+        shared_at.append(set(shared))
+        reached_at.append(set(reached))
         for f in tags:
             if f in done and f not in raises:
                 fail("session-double-init", f"{f} initialised again by input {k} of the session (its top level had completed during an earlier input)")
@@ -510,9 +515,12 @@ def session_oracle(t, inputs_obs, probes, bumps=None):
             continue
         spell = n if sp[0] == "bare" else f"{sp[1]}.{n}"
         what = f"input {k} reads `{spell}` = {got}, the imports of the session so far grant {exp}"
-        if n in shared:
+        if n in shared_at[k]:
             fail("ns:same-global-name", what)
-        elif sp[0] == "qual" and got:
+        elif sp[0] == "qual" and got and any(
+                got[0] in grants(tt, f0).get(sp, set())
+                for f0 in list(reached_at[k]) + ["in%d" % j for j in range(k + 1)]):
+            # some other importer (a module, or an input that was not accepted) bound this qualified global
             fail("ns:qualifier-shared-between-importers", what)
         elif got and not exp:
             fail("leak", what)
